@@ -50,7 +50,7 @@ def gen_case(rng, kind, subtype):
     if rng.random() < 0.5:
         cols = cols[::-1]
     route = "dask" if rng.random() < 0.55 else "pandas"
-    ik = ["default", "named", "string", "nonunique", "shuffled-int", "hilbert"][int(rng.integers(6))]
+    ik = ["default", "named", "string", "nonunique", "shuffled-int", "hilbert", "sorted-ties"][int(rng.integers(7))]
     spec = gf.frame_spec(rng, cols, n, ik if ik != "hilbert" else "default")
     proj = None
     if rng.random() < 0.4:
